@@ -555,10 +555,12 @@ def _parse_config_params(toml):
 
     # Make sure initial olivine fabric is valid.
     try:
-        _params["initial_olivine_fabric"] = getattr(
-            _core.MineralFabric, "olivine_" + _params["initial_olivine_fabric"]
-        )
-    except AttributeError:
+        _fabric = _params["initial_olivine_fabric"]
+        # The default value is already a `MineralFabric`, config files give the letter.
+        if not isinstance(_fabric, _core.MineralFabric):
+            _fabric = getattr(_core.MineralFabric, "olivine_" + _fabric)
+        _params["initial_olivine_fabric"] = _fabric
+    except (AttributeError, TypeError):
         raise _err.ConfigError(
             f"invalid initial olivine fabric: {_params['initial_olivine_fabric']}"
         ) from None
@@ -668,6 +670,10 @@ def _parse_config_input_postpaths(input, path):
 
 
 def _parse_output_options(output_opts, level, phase_assemblage):
+    if level not in output_opts:
+        # By default, output for all simulated mineral phases is saved.
+        output_opts[level] = list(phase_assemblage)
+        return
     try:
         output_opts[level] = [
             getattr(_core.MineralPhase, ϕ) for ϕ in output_opts[level]
